@@ -14,7 +14,8 @@ Print Assumptions C02_edge_valid_spec.
    every final edge is (a,b) with 0 <= a < b < n *)
 Theorem C02_edges : forall c r r', prepare c r = Ok r' ->
   let N := zlen (vertices r) in
-  edges r' = filter (evalid N) (map kedge (edges r)) ++ filter (evalid N) (added_edges c r)
+  edges r' = norm_edges N (edges r) ++ filter (evalid N) (added_edges c r)
+  /\ NoDup (edges r')
   /\ NoDup (added_edges c r)
   /\ (forall e, In e (added_edges c r) -> ~ In e (map kedge (edges r)))
   /\ (forall e, In e (added_edges c r) -> exists f, In f (faces r') /\ In e (face_sides f))
@@ -23,6 +24,12 @@ Theorem C02_edges : forall c r r', prepare c r = Ok r' ->
   /\ Forall (edge_ok N) (edges r').
 Proof. exact edges_thm. Qed.
 Print Assumptions C02_edges.
+
+(* the declared part: exactly the valid keyified declared edges, each pair once (first declaration), duplicate-free *)
+Theorem C02_norm_edges : forall N E, NoDup (norm_edges N E) /\
+  forall e, In e (norm_edges N E) <-> In e (filter (evalid N) (map kedge E)).
+Proof. exact (fun N E => conj (norm_edges_NoDup N E) (norm_edges_In N E)). Qed.
+Print Assumptions C02_norm_edges.
 
 (* a side of a face = two cyclically consecutive vertices, low index first (pins the generated index formula) *)
 Theorem C02_face_sides_spec : forall f, face_sides f = map (fun ab => kedge2 (fst ab) (snd ab)) (cyc_pairs f).
@@ -45,7 +52,7 @@ Print Assumptions C02_added_side_once.
 
 (* the j-th surviving declared edge (old index i) is the j-th final edge and reads its old attribute value there *)
 Theorem C02_surviving_edges_order : forall N E,
-  map (fun i => kedge (znth E i (0, 0))) (kept_idx N E) = filter (evalid N) (map kedge E).
+  map (fun i => kedge (znth E i (0, 0))) (kept_idx N E) = norm_edges N E.
 Proof. exact kept_idx_survivors. Qed.
 Print Assumptions C02_surviving_edges_order.
 
@@ -59,7 +66,7 @@ Proof. exact attrs_thm. Qed.
 Print Assumptions C02_edge_attributes.
 
 Theorem C02_hard_edges : forall c r r', prepare c r = Ok r' -> attr_lookup HARD (eattrs r) = None ->
-  let nd := zlen (filter (evalid (zlen (vertices r))) (map kedge (edges r))) in
+  let nd := zlen (norm_edges (zlen (vertices r)) (edges r)) in
   (snd c = true -> faces r' <> [] ->
      exists h, attr_lookup HARD (eattrs r') = Some h /\
                forall j, 0 <= j < zlen (edges r') -> (attr_get h j = 1 <-> j < nd) /\ (attr_get h j = 0 <-> nd <= j))
@@ -205,23 +212,30 @@ Theorem C02_vertices_3d : forall c r r', prepare c r = Ok r' ->
 Proof. exact vertices_3d_thm. Qed.
 Print Assumptions C02_vertices_3d.
 
-(* "every edge exactly once" holds under the NAMED GUARD that the surviving declared edges are pairwise distinct ... *)
-Theorem C02_edges_nodup_if_declared_distinct : forall c r r', prepare c r = Ok r' ->
-  NoDup (filter (evalid (zlen (vertices r))) (map kedge (edges r))) -> NoDup (edges r').
-Proof. exact edges_nodup_if_declared_distinct. Qed.
-Print Assumptions C02_edges_nodup_if_declared_distinct.
+(* every edge exactly once: the whole final edge list is duplicate-free, without any guard (an edge declared more than once
+   is kept once, with the attribute values of its first declaration - C02_edge_attributes speaks of kept_idx) *)
+Theorem C02_edges_nodup : forall c r r', prepare c r = Ok r' -> NoDup (edges r').
+Proof. exact edges_nodup. Qed.
+Print Assumptions C02_edges_nodup.
 
-Theorem C02_side_once_if_declared_distinct : forall c r r', prepare c r = Ok r' -> snd c = true ->
-  NoDup (filter (evalid (zlen (vertices r))) (map kedge (edges r))) ->
+(* the edge list holds exactly the valid declared edges and the valid sides of the faces *)
+Theorem C02_edges_members : forall c r r', prepare c r = Ok r' -> snd c = true ->
+  forall e, In e (edges r') <->
+    (evalid (zlen (vertices r)) e = true /\ (In e (map kedge (edges r)) \/ exists f, In f (faces r') /\ In e (face_sides f))).
+Proof. exact edges_members. Qed.
+Print Assumptions C02_edges_members.
+
+Theorem C02_side_once : forall c r r', prepare c r = Ok r' -> snd c = true ->
   forall f s, In f (faces r') -> In s (face_sides f) -> evalid (zlen (vertices r)) s = true ->
               count_occ edge_dec (edges r') s = 1%nat.
-Proof. exact side_once_if_declared_distinct. Qed.
-Print Assumptions C02_side_once_if_declared_distinct.
+Proof. exact side_once. Qed.
+Print Assumptions C02_side_once.
 
-(* ... and is false without it: an edge declared twice is kept twice (known finding edge-list/duplicate-declared) *)
-Theorem C02_edges_nodup_refuted : exists c r r', prepare c r = Ok r' /\ ~ NoDup (edges r').
-Proof. exact edges_nodup_refuted. Qed.
-Print Assumptions C02_edges_nodup_refuted.
+(* every edge of the final list, declared or added, occurs exactly once *)
+Theorem C02_edge_once : forall c r r', prepare c r = Ok r' ->
+  forall e, In e (edges r') -> count_occ edge_dec (edges r') e = 1%nat.
+Proof. exact edge_once. Qed.
+Print Assumptions C02_edge_once.
 
 (* corner containers pre-filled by the importers (face corners / cell corners of the faces / cells they read) *)
 Theorem C02_corners_prefilled : forall c r r', prepare c r = Ok r' -> fc_incoming_ok r -> cc_incoming_ok r ->
